@@ -73,7 +73,10 @@ func (a *Analysis) pureFn(fn *ssa.Function, allowPanic bool) bool {
 	if !allowPanic {
 		a.pureMemo[fn] = false // recursion guard
 	}
-	if !a.P.InModule(fn) || len(fn.Blocks) == 0 || len(fn.FreeVars) > 0 {
+	// (a function literal that is only ever called, directly, by the function that defines it - a local helper such
+	// as `fail := func(err error) (T, error) {...}` - may read the variables it captures; assigning one is a store
+	// through a non-local address and makes it impure like any other)
+	if !a.P.InModule(fn) || len(fn.Blocks) == 0 || len(fn.FreeVars) > 0 && !localHelperClosure(fn) {
 		return false
 	}
 	for _, b := range fn.Blocks {
@@ -558,6 +561,11 @@ func (fc *FuncCtx) ap0(v ssa.Value) string {
 	case *ssa.ChangeType:
 		return fc.AP(x.X)
 	case *ssa.Convert:
+		// a conversion to a narrower integer type keeps only the low bits: it is not the value it was made from
+		// (byte(len(buf)) is 0 for a buffer of 256 bytes)
+		if narrowsInteger(x.X.Type(), x.Type()) {
+			return "trunc<" + x.Type().Underlying().String() + ">(" + fc.AP(x.X) + ")"
+		}
 		return fc.AP(x.X)
 	case *ssa.SliceToArrayPointer:
 		return fc.AP(x.X)
@@ -1344,4 +1352,52 @@ func (fc *FuncCtx) firstSetPhi(ph *ssa.Phi) string {
 		}
 	}
 	return ""
+}
+
+var stdSizes = types.SizesFor("gc", "amd64")
+
+// narrowsInteger: a conversion between integer types to one of smaller size.
+func narrowsInteger(from, to types.Type) bool {
+	fb, ok1 := from.Underlying().(*types.Basic)
+	tb, ok2 := to.Underlying().(*types.Basic)
+	if !ok1 || !ok2 || fb.Info()&types.IsInteger == 0 || tb.Info()&types.IsInteger == 0 || fb.Info()&types.IsUntyped != 0 {
+		return false
+	}
+	return stdSizes.Sizeof(tb) < stdSizes.Sizeof(fb)
+}
+
+// localHelperClosure: fn is a function literal whose closure value is created in its enclosing function and used for
+// nothing but direct calls there (not stored, returned or passed on).
+func localHelperClosure(fn *ssa.Function) bool {
+	par := fn.Parent()
+	if par == nil {
+		return false
+	}
+	n := 0
+	for _, b := range par.Blocks {
+		for _, in := range b.Instrs {
+			mc, ok := in.(*ssa.MakeClosure)
+			if !ok || mc.Fn != ssa.Value(fn) {
+				continue
+			}
+			n++
+			for _, r := range *mc.Referrers() {
+				switch y := r.(type) {
+				case *ssa.DebugRef:
+				case *ssa.Call:
+					if y.Call.Value != ssa.Value(mc) {
+						return false
+					}
+					for _, arg := range y.Call.Args {
+						if arg == ssa.Value(mc) {
+							return false
+						}
+					}
+				default:
+					return false
+				}
+			}
+		}
+	}
+	return n > 0
 }
